@@ -53,7 +53,7 @@ func newRegoWorld() *regoWorld {
 	e1.GetOrAddFeature(model.FeatureTypeTypeSetpoint, model.RoleTypeClient)    // 4
 	w.l = l
 	dev := "dev1"
-	l.SetupRemoteDevice("ski1", &regW{1, w.log})
+	l.SetupRemoteDevice("ski1", &regW{1, w.log, 0})
 	w.rd = l.RemoteDeviceForSki("ski1")
 	feat := func(ent []uint, fid uint, ft model.FeatureTypeType, role model.RoleType) model.NodeManagementDetailedDiscoveryFeatureInformationType {
 		return model.NodeManagementDetailedDiscoveryFeatureInformationType{Description: &model.NetworkManagementFeatureDescriptionDataType{FeatureAddress: h.FA(dev, ent, fid), FeatureType: &ft, Role: &role}}
